@@ -20,7 +20,7 @@ RULE = (
     "reads back as assigned, vertices/axes/rounding radius change by one common factor s>0 about some point (no rotation, no "
     "reflection), every dimensionless descriptor and the combinatorics are unchanged; centre setters translate only; a target that "
     "cannot be honoured raises ValueError (RuntimeError when the underlying ball does not exist) and leaves the instance dictionary "
-    "bit-identical.  Individual semi-axis and rounding-radius setters are parameter setters: read-back and all other parameters "
+    "bit-identical; the x2, x1e-3 and centre assignments are executed twice: on a cold object and after every public observable has been read on the very object (memo fields filled).  Individual semi-axis and rounding-radius setters are parameter setters: read-back and all other parameters "
     "unchanged.  non-trivial = transition from a non-base state or with a target other than 2x."
 )
 ASSUMPTIONS = ["targets over 1e-3..1e3 sampled at 4 ratios", "bounding-ball radii read back through miniball are compared at 1e-6 relative (miniball's epsilon)"]
@@ -123,74 +123,84 @@ def run_case(case):
                 c0 = float(cur) if cur is not None else 1.0
                 targets = [("x%g" % k, c0 * k) for k in POS] + [("zero", 0.0), ("minus-one", -1.0), ("minus-current", -abs(c0) if c0 else -2.0), ("nan", float("nan"))]
             for tag, val in targets:
-                obj = copy.deepcopy(start)
-                before = e1.exact_state(obj)
-                tcase = {"start": case, "setter": name, "target": tag}
-                rep.transitions += 1
-                rep.traces += 1
-                if case["prefix"] or tag != "x2":
-                    rep.nontrivial += 1
-                e1._reseed()
-                try:
-                    setattr(obj, name, val)
-                    raised = None
-                except Exception as ex:
-                    raised = ex
-                bad_target = (not centre_like) and tag in NEG and not (tag == "zero" and name == "radius" and "Sphero" in cls)
-                if raised is not None:
-                    unchanged = e1.exact_state(obj) == before
-                    if not unchanged:
-                        rep.violation("setter", cls, name, "raise-not-atomic", tcase, "%s = %s raised %r but changed the object" % (name, tag, raised))
-                    elif bad_target:
-                        if isinstance(raised, ValueError) or (cur_exc is not None and isinstance(raised, type(cur_exc))):
-                            rep.ok("refused:" + type(raised).__name__)
+                for warm in ((False, True) if tag in ("x2", "x0.001", "origin", "far") else (False,)):
+                    obj = copy.deepcopy(start)
+                    if warm:
+                        # history read* -> set -> read: every public observable is evaluated on the very
+                        # object first, so that any memo field is filled before the assignment
+                        e1.observe(obj, None)
+                    try:
+                        getattr(obj, name)  # the read a user would do to compute the target; may fill a memo
+                    except Exception:
+                        pass
+                    tree = e1.key_tree(obj)
+                    before = e1.exact_state_on(obj, tree)
+                    tcase = {"start": case, "setter": name, "target": tag, "warm": warm}
+                    rep.transitions += 1
+                    rep.traces += 1
+                    if case["prefix"] or tag != "x2":
+                        rep.nontrivial += 1
+                    e1._reseed()
+                    try:
+                        setattr(obj, name, val)
+                        raised = None
+                    except Exception as ex:
+                        raised = ex
+                    bad_target = (not centre_like) and tag in NEG and not (tag == "zero" and name == "radius" and "Sphero" in cls)
+                    if raised is not None:
+                        unchanged = e1.exact_state_on(obj, tree) == before  # memo fields may appear
+                        if not unchanged:
+                            rep.violation("setter", cls, name, "raise-not-atomic", tcase, "%s = %s raised %r but changed the object" % (name, tag, raised))
+                        elif bad_target:
+                            if isinstance(raised, ValueError) or (cur_exc is not None and isinstance(raised, type(cur_exc))):
+                                rep.ok("refused:" + type(raised).__name__)
+                            else:
+                                rep.violation("setter", cls, name, "wrong-exception:" + type(raised).__name__, tcase, "%s = %s raised %r instead of ValueError" % (name, tag, raised))
                         else:
-                            rep.violation("setter", cls, name, "wrong-exception:" + type(raised).__name__, tcase, "%s = %s raised %r instead of ValueError" % (name, tag, raised))
+                            if cur_exc is not None and type(raised) is type(cur_exc):
+                                rep.ok("cannot-honour:" + type(raised).__name__)  # e.g. no circumsphere exists
+                            else:
+                                rep.violation("setter", cls, name, "positive-target-raised:" + type(raised).__name__, tcase, "%s = %s (%r) raised %r" % (name, tag, val, raised))
+                        continue
+                    if bad_target:
+                        rep.violation("setter", cls, name, "non-positive-target-accepted", tcase, "%s = %r was accepted (geometry now %s)" % (name, val, {k: np.asarray(v).tolist() if np.size(v) < 7 else "..." for k, v in geometry(obj).items()}))
+                        continue
+                    # ---- accepted positive / centre target
+                    g1 = geometry(obj)
+                    finite = all(np.all(np.isfinite(np.asarray(v, float))) for v in g1.values())
+                    if not finite:
+                        rep.violation("setter", cls, name, "non-finite-geometry", tcase, "%s = %r left non-finite geometry" % (name, val))
+                        continue
+                    e1._reseed()
+                    try:
+                        back = getattr(obj, name)
+                    except Exception as ex:
+                        rep.violation("setter", cls, name, "read-back-raised:" + type(ex).__name__, tcase, "reading %s after assigning %r raised %r" % (name, val, ex))
+                        continue
+                    rt = 1e-6 if ("bounding" in name and hasattr(obj, "vertices")) else 1e-9
+                    if centre_like:
+                        ok = np.max(np.abs(np.asarray(back, float) - val)) <= 1e-9 * (1 + np.max(np.abs(val)) + _size(g0))
                     else:
-                        if cur_exc is not None and type(raised) is type(cur_exc):
-                            rep.ok("cannot-honour:" + type(raised).__name__)  # e.g. no circumsphere exists
-                        else:
-                            rep.violation("setter", cls, name, "positive-target-raised:" + type(raised).__name__, tcase, "%s = %s (%r) raised %r" % (name, tag, val, raised))
-                    continue
-                if bad_target:
-                    rep.violation("setter", cls, name, "non-positive-target-accepted", tcase, "%s = %r was accepted (geometry now %s)" % (name, val, {k: np.asarray(v).tolist() if np.size(v) < 7 else "..." for k, v in geometry(obj).items()}))
-                    continue
-                # ---- accepted positive / centre target
-                g1 = geometry(obj)
-                finite = all(np.all(np.isfinite(np.asarray(v, float))) for v in g1.values())
-                if not finite:
-                    rep.violation("setter", cls, name, "non-finite-geometry", tcase, "%s = %r left non-finite geometry" % (name, val))
-                    continue
-                e1._reseed()
-                try:
-                    back = getattr(obj, name)
-                except Exception as ex:
-                    rep.violation("setter", cls, name, "read-back-raised:" + type(ex).__name__, tcase, "reading %s after assigning %r raised %r" % (name, val, ex))
-                    continue
-                rt = 1e-6 if ("bounding" in name and hasattr(obj, "vertices")) else 1e-9
-                if centre_like:
-                    ok = np.max(np.abs(np.asarray(back, float) - val)) <= 1e-9 * (1 + np.max(np.abs(val)) + _size(g0))
-                else:
-                    ok = abs(float(back) - val) <= rt * abs(val)
-                if not ok:
-                    rep.violation("setter", cls, name, "read-back-differs", tcase, "assigned %s = %r, reads back %r" % (name, np.asarray(val).tolist(), np.asarray(back).tolist()))
-                    continue
-                msg = _similarity(g0, g1, name, centre_like, cls, val, cur)
-                if msg:
-                    rep.violation("setter", cls, name, msg[0], tcase, "%s = %s: %s" % (name, tag, msg[1]))
-                    continue
-                # dimensionless descriptors and combinatorics unchanged
-                obs1 = e1.observe(copy.deepcopy(obj), None)
-                sub0 = {k: v for k, v in obs0.items() if k in DIMLESS}
-                sub1 = {k: v for k, v in obs1.items() if k in DIMLESS}
-                if name in PARAM_SETTERS or (name == "radius" and "Sphero" in cls):
-                    sub0 = {k: v for k, v in sub0.items() if k not in ("iq", "eccentricity", "tau", "asphericity")}
-                    sub1 = {k: v for k, v in sub1.items() if k in sub0}
-                diffs = e1.compare_observations(sub1, sub0, 1.0, 1.0)
-                if diffs:
-                    rep.violation("setter", cls, name, "descriptor-changed:" + diffs[0][0], tcase, "%s = %s changed the dimensionless observable %s: %s" % (name, tag, diffs[0][0], diffs[0][1]))
-                else:
-                    rep.ok("accepted:" + ("translate" if centre_like else "scale"))
+                        ok = abs(float(back) - val) <= rt * abs(val)
+                    if not ok:
+                        rep.violation("setter", cls, name, "read-back-differs", tcase, "assigned %s = %r, reads back %r" % (name, np.asarray(val).tolist(), np.asarray(back).tolist()))
+                        continue
+                    msg = _similarity(g0, g1, name, centre_like, cls, val, cur)
+                    if msg:
+                        rep.violation("setter", cls, name, msg[0], tcase, "%s = %s: %s" % (name, tag, msg[1]))
+                        continue
+                    # dimensionless descriptors and combinatorics unchanged
+                    obs1 = e1.observe(copy.deepcopy(obj), None)
+                    sub0 = {k: v for k, v in obs0.items() if k in DIMLESS}
+                    sub1 = {k: v for k, v in obs1.items() if k in DIMLESS}
+                    if name in PARAM_SETTERS or (name == "radius" and "Sphero" in cls):
+                        sub0 = {k: v for k, v in sub0.items() if k not in ("iq", "eccentricity", "tau", "asphericity")}
+                        sub1 = {k: v for k, v in sub1.items() if k in sub0}
+                    diffs = e1.compare_observations(sub1, sub0, 1.0, 1.0)
+                    if diffs:
+                        rep.violation("setter", cls, name, "descriptor-changed:" + diffs[0][0], tcase, "%s = %s changed the dimensionless observable %s: %s" % (name, tag, diffs[0][0], diffs[0][1]))
+                    else:
+                        rep.ok("accepted:" + ("translate" if centre_like else "scale"))
         rep.sample({"start": case, "class": cls, "setters": setters_of(start)})
     return rep
 
